@@ -1,5 +1,7 @@
 import G3D.Proofs.Tol
 import G3D.Extracted.Sites
+import G3D.Proofs.TolUnique
+import G3D.Proofs.RoundStable
 /-! # C19 — tolerance is uniform and follows set_eps / set_sig_figures  (partial)
     `Tol.Cfg` is the state of utils/constant.py (`FLOAT_EPS`, `SIG_FIGURES`), `Tol.step` its four entry points.
     Proved: the two globals stay consistent after ANY sequence of setter calls, restoring eps restores the state,
@@ -47,4 +49,20 @@ theorem sites_cover_modules : ∀ f ∈ ["Geometry3D/geometry/point.py", "Geomet
 theorem no_literal_tolerances : literalTolerances = [] := by decide
 /-- both setters assign BOTH globals (so they cannot drift apart) -/
 theorem setters_write_both : configWriters = [("set_eps", ["FLOAT_EPS", "SIG_FIGURES"]), ("set_sig_figures", ["FLOAT_EPS", "SIG_FIGURES"])] := by decide
+/-- restoring the previous eps restores the previous configuration EXACTLY (the significant-figure count is determined
+    by eps) -/
+theorem restore_previous_exact (c : Cfg) (hc : Inv c) (e : Rat) (c1 c2 : Cfg) (h1 : setEps c e = some c1)
+    (h2 : setEps c1 c.eps = some c2) : c2 = c := restore_full c hc e c1 c2 h1 h2
+
+/-- the count is unique: two configurations with the same eps that satisfy the invariant are equal -/
+theorem sig_determined_by_eps (c c' : Cfg) (hc : Inv c) (hc' : Inv c') (he : c.eps = c'.eps) : c = c' :=
+  Inv_sig_determined c c' hc hc' he
+
+/-- **hash stability**: `round(x, k)` (round-half-even on x·10^k) is unchanged by a perturbation of at most eps/1000 =
+    10^(-k)/1000 whenever x is at least 7% of a rounding step away from a rounding boundary — the reason why objects whose
+    defining coordinates differ by eps/1000 hash equal on the property's catalogue -/
+theorem rounding_stable (k : Nat) (x y : Rat)
+    (hm : 7/100 ≤ |x * (10:Rat)^k - ((x * (10:Rat)^k).floor : Rat) - 1/2|)
+    (hxy : |y - x| ≤ (1 / (10:Rat)^k) / 1000) : G3D.Round.roundDec k y = G3D.Round.roundDec k x :=
+  G3D.Round.round_stable_eps1000 k x y hm hxy
 end G3D.Props.C19
